@@ -2,8 +2,9 @@
 (* The parser campaign: definitions are chosen in Init from the family file
    (IOEnv.DEFS), the environment feeds one token at a time from the definition's
    alphabet, so the state graph is the prefix tree of all argv up to MaxArgv.
-   Every state is a complete parse (Run) and is emitted for replay. *)
-EXTENDS Parser, Json, IOUtils
+   Every state is a complete parse (Run): the declarative properties are invariants
+   on the model's own observation, and every state is emitted for replay. *)
+EXTENDS Props, Json, IOUtils
 
 CONSTANTS MaxArgv, EmitOn
 
@@ -17,6 +18,20 @@ Feed(tok) == Len(argv) < MaxArgv /\ argv' = Append(argv, tok) /\ UNCHANGED d
 Next == \E k \in 1..Len(Defs[d].alphabet) : Feed(Defs[d].alphabet[k])
 Spec == Init /\ [][Next]_vars
 
-Obs == Run(Defs[d].cmd, argv)
+Def == Defs[d].cmd
+Obs == Run(Def, argv)
+Top == RunTop(Def, argv)
+
+\* design level: the transcription satisfies the declarative properties
+NoPanicSite == Obs.outcome # "Panic"
+IgnoreErrorsOk == P01(Def, Obs, TRUE)
+RelationsHold == P03(Def, Obs)
+SourcesHonest == P06(Def, Obs)
+ActionsFold == P07(Def, Obs, Top)
+AttributionSound == IndexDistinct(Def, Obs) /\ (Obs.outcome = "Ok" => ValuesFromArgv(Def, argv, Obs))
+TailVerbatim == P05(Def, argv, Obs, Top)
+ChainAndGlobals == P09(Def, Obs, Top)
+Rejections == KindContract(Obs) /\ (Obs.outcome = "Err" => Justified(Def, Obs, Top))
+
 Emit == EmitOn => PrintT(<<"REPLAY", ToJson([d |-> d, argv |-> argv, obs |-> Obs])>>)
 =============================================================================
